@@ -243,16 +243,41 @@ pub fn replay(v: &Value) {
         "concur" => crate::concur::replay(v),
         _ => {
             let model = v["replay"]["model"].as_str().unwrap_or("");
-            if model.starts_with("chanfsm") {
-                for round in 0..2 {
-                    let vios = chanfsm::replay_ops(&v["replay"]);
-                    println!("round {}: {} violation(s)", round, vios.len());
-                    for x in vios {
-                        println!("  [{}] {} :: {}", x.prop, x.key, x.what);
+            let f: Option<fn(&Value) -> Vec<Vio>> = if model.starts_with("chanfsm") {
+                Some(chanfsm::replay_ops)
+            } else if model.starts_with("nodemc") {
+                Some(crate::nodemc::replay_ops)
+            } else if model.starts_with("chain13") {
+                Some(crate::chain13::replay_ops)
+            } else if model.starts_with("chainmc") {
+                Some(crate::chainmc::replay_ops)
+            } else if model.starts_with("payflow") {
+                Some(crate::payflow::replay_ops)
+            } else if model.starts_with("nodevel") {
+                Some(crate::nodevel::replay_ops)
+            } else {
+                None
+            };
+            match f {
+                Some(f) => {
+                    // twice: the same history must give the same observations
+                    let mut prev: Option<Vec<String>> = None;
+                    for round in 0..2 {
+                        let vios = f(&v["replay"]);
+                        println!("round {}: {} violation(s) at the last step", round, vios.len());
+                        let keys: Vec<String> = vios.iter().map(|x| format!("[{}] {}", x.prop, x.key)).collect();
+                        for x in &vios {
+                            println!("  [{}] {} :: {}", x.prop, x.key, x.what);
+                        }
+                        if let Some(p) = &prev {
+                            if *p != keys {
+                                machinery_failure("replay is not deterministic: the two rounds differ");
+                            }
+                        }
+                        prev = Some(keys);
                     }
                 }
-            } else {
-                machinery_failure(&format!("no replay for engine {} model {}", engine, model));
+                None => machinery_failure(&format!("no replay for engine {} model {}", engine, model)),
             }
         }
     }
